@@ -35,5 +35,6 @@ def block_unit(name, unwind=7, **kw):
 UNITS += [
     block_unit("mark_released_area", replay="replay/c09_block.cpp"),
     block_unit("mark_shrunk_area", replay="replay/c09_block_shrunk.cpp"),
+    block_unit("mark_allocated_area"),
     block_unit("clear_block", unwind=36, replay="replay/c09_block_clear.cpp"),
 ]
